@@ -100,6 +100,14 @@ def cases(tier, seed):
     # (l) second-quantised perturbation that couples degenerate (resonant) levels
     for model in ("boson-hop", "fermion-hop", "jc-resonant", "boson-hop-matrix", "two-photon"):
         out.append(dict(cls="sq-resonant", model=model, total=2))
+    # (m) second-quantised H_0 that is not number conserving in some (each in turn / all) of its internal levels
+    for nlev in (1, 2, 3):
+        for bad in itertools.product((0, 1), repeat=nlev):
+            if not any(bad):
+                continue
+            for split in ("single-block", "blocks") if nlev > 1 else ("single-block",):
+                for drive in ("x", "a2", "hop"):
+                    out.append(dict(cls="sq-h0-nonconserving", nlev=nlev, bad=list(bad), split=split, drive=drive, total=2))
     # (j) finiteness on the well-posed float lattice
     for herm in (True, False):
         for st in lattice.structures(3, hermitian=herm, ks=(1,)):
@@ -164,7 +172,7 @@ def run_case(case):
 
 
 def describe_short(case):
-    keys = ("sizes", "E", "fd", "pos", "repr", "hermitian", "defect", "order", "nsym", "rel", "big", "ops", "others", "bad")
+    keys = ("sizes", "E", "fd", "pos", "repr", "hermitian", "defect", "order", "nsym", "rel", "big", "ops", "others", "bad", "nlev", "split", "drive")
     return {k: case[k] for k in keys if k in case}
 
 
@@ -564,6 +572,55 @@ def run_symbolic_nonhermitian_scalar(case):
             answered.append(n)
     if max(m, 1) in answered:
         V.append(f"scalar second-quantised input with a non-Hermitian {case['bad']} term at order x^{m}: H_tilde at order {max(m, 1)} was answered")
+    return V, True, "constructed"
+
+
+def run_sq_h0_nonconserving(case):
+    import sympy
+    from sympy.physics.quantum import Dagger
+    from sympy.physics.quantum.boson import BosonOp
+    from sympy.physics.quantum.fermion import FermionOp
+
+    from pymablock import block_diagonalize
+    from pymablock.number_ordered_form import NumberOperator
+
+    a, c = BosonOp("a"), FermionOp("c")
+    Na, Nc = NumberOperator(a), NumberOperator(c)
+    R = sympy.Rational
+    drive = {"x": R(1, 3) * (a + Dagger(a)), "a2": R(1, 5) * (a**2 + Dagger(a) ** 2),
+             "hop": R(1, 4) * (Dagger(a) * c + Dagger(c) * a)}[case["drive"]]
+    nlev = case["nlev"]
+    levels = [2 * Na + R(7, 3) * Nc + 5 * i + (drive if b else 0) for i, b in enumerate(case["bad"])]
+    H0 = sympy.diag(*levels)
+    H1 = sympy.Matrix(nlev, nlev, lambda i, j: (a + Dagger(a)) * (1 + i + j) + (Nc if i == j else 0))
+    kwargs = {}
+    if case["split"] == "blocks":
+        kwargs["subspace_indices"] = list(range(nlev))
+    V = []
+    try:
+        with warnings.catch_warnings():
+            warnings.simplefilter("ignore")
+            outs = block_diagonalize([H0, H1], **kwargs)
+    except REJECTIONS:
+        return [], True, "rejected-at-construction"
+    except Exception as e:  # noqa: BLE001
+        return [f"raises {type(e).__name__}: {str(e)[:100]} at construction"], True, "bad"
+    nb = outs[0].shape[0]
+    answered = 0
+    for n in (1, 2):
+        for name, s_ in zip(("Ht", "U"), outs[:2]):
+            for i in range(nb):
+                try:
+                    with warnings.catch_warnings():
+                        warnings.simplefilter("ignore")
+                        s_[i, i, n]
+                    answered += 1
+                except REJECTIONS:
+                    continue
+                except Exception as e:  # noqa: BLE001
+                    V.append(f"{name}[{i},{i},{n}] raises {type(e).__name__}: {str(e)[:80]}")
+    if answered == 2 * 2 * nb and not V:
+        V.append("second-quantised H_0 with a number-changing term in some internal level was accepted and every element answered")
     return V, True, "constructed"
 
 
